@@ -92,6 +92,25 @@ def draw_case_scenario(seed, tier, force=None):
         scn["rng_route"] = "sample" if scn["rng_route"] != "none" else "none"
         scn["first_call"] = s1
         extra = extra + "+after_" + m1
+    if (scn.get("api", "aspire") == "aspire" and "first_call" not in scn and "n_steps" not in force
+            and not ({"min_step", "max_n_steps", "beta_tolerance"} & set(sk)) and rng_from(int(seed) ^ 0xE3CEE).uniform() < 0.12):
+        # the emcee-driven SMC variant forwards the schedule options (n_steps, adaptive, target efficiency and its rate,
+        # n_final_samples) to the shared loop by itself: a share of the swarm goes through it
+        scn["sampler"] = "emcee_smc"
+        sk["sampler_kwargs"] = {"nsteps": 1, "progress": False}
+        r3 = rng_from(int(seed) ^ 0xE3CEF)
+        if r3.uniform() < 0.4:
+            # every forwarded option away from its default at once: a ramp with a non-linear rate
+            lo = float(np.round(r3.uniform(0.3, 0.5), 3))
+            sk.pop("n_steps", None)
+            sk["adaptive"] = True
+            sk["target_efficiency"] = [lo, float(np.round(r3.uniform(lo + 0.25, 0.95), 3))]
+            sk["target_efficiency_rate"] = float(pick(r3, [0.5, 2.0, 3.0]))
+            mode = "adaptive_ramp"
+        scn["rng_route"] = "none"
+        if scn["xp"] == "jax" and scn["preconditioning"] == "none":
+            scn["preconditioning"] = "default"  # observation in DESIGN 7.3: that cell raises in IdentityTransform
+        extra = extra + "+emcee_smc"
     scn["_schedule_mode"] = mode + ("+" + extra if extra != "none" else "")
     return scn
 
@@ -111,7 +130,18 @@ def gen_cases(prop, seed, tier):
         ss = stream_seeds(seed, prop, 100000 + k)
         cases.append({"run_index": 100000 + k, "scenario_seed": ss["scenario"], "tier": tier,
                       "force": {"n_steps": k, "kind": "gauss_box"}})
-    return cases
+    # interleave the three kinds (a wall-clock budget may cut the list short on a loaded machine: every kind should
+    # still have been sampled in proportion)
+    kinds = [[c for c in cases if c["run_index"] < 100000], [c for c in cases if 100000 <= c["run_index"] < 200000],
+             [c for c in cases if c["run_index"] >= 200000]]
+    total = len(cases)
+    out, pos = [], [0, 0, 0]
+    for i in range(total):
+        # pick the kind that is furthest behind its proportional share
+        j = max(range(3), key=lambda q: (len(kinds[q]) * (i + 1) / total - pos[q]) if pos[q] < len(kinds[q]) else -1e9)
+        out.append(kinds[j][pos[j]])
+        pos[j] += 1
+    return out
 
 
 def scenario_of(case):
@@ -127,7 +157,8 @@ def run_schedule_case(case, workdir, want):
         return run_changed_resume_case(case, workdir) if "c06" in want else {"violations": [], "evaluations": 1, "nontrivial_keys": [], "digest": "skip"}
     scn = scenario_of(case)
     tier = case.get("tier", "quick")
-    ks = scn["sample_kwargs"]["sampler_kwargs"]["n_steps"]
+    _skw = scn["sample_kwargs"]["sampler_kwargs"]
+    ks = _skw.get("n_steps", _skw.get("nsteps", 1))
     max_iter = case.get("max_iter", MAX_ITER[tier])
     stop_after = (2 + max_iter * (ks + 2)) * (2 if scn.get("first_call") else 1)
     res = run_process(scn, workdir, stop_after=stop_after, fresh_file=True)
